@@ -55,7 +55,7 @@ package align
 
 
 //@ func (*align).RemoveMajorityCharacterSites
-//@   props C12
+//@   props C12 C01
 //@   requires wfa(a)
 // first / last: lengths of the maximal qualifying prefix / suffix
 //@   ensures 0 <= first && first <= max(old(a.length), 0) && (forall k :: 0 <= k && k < first ==> c12b_MH(a, cutoff, ignoreGaps, ignoreNs, k)) && (first < old(a.length) ==> !c12b_MH(a, cutoff, ignoreGaps, ignoreNs, first))
